@@ -115,7 +115,7 @@ NoUninitWork == (dec.a = "mag" /\ dec.corr = 1) => initialized
 NoTie == dec.a \in {"imu", "mag"} => ~dec.tie          \* only for tie-free constant sets (engine B)
 
 (* constant sets *)
-TimesX == {250 * k : k \in 0..36}                          \* 0 .. 9 ms, step 0.25 ms (exhaustive)
+TimesX == {500 * k : k \in 0..12}                          \* 0 .. 6 ms, step 0.5 ms (exhaustive; ties reachable)
 TimesB == {300 * k : k \in 0..60} \cup {-300, 30000}   \* engine B: gaps are multiples of 0.3 ms, no tie with DtMinsB or the default
 DtMinsX == {0, 2000, 5000}
 DtMinsB == {250, 2250, 5250}
